@@ -7,6 +7,7 @@
 // a second free is ASan's to report), never before the last item's END.
 #include "hcommon.h"
 #include <dispatch/private.h>
+#include <unistd.h>
 
 static const char *const NAMES[] = {
 	"serial queue: release right after async (item pending or running)",
@@ -24,6 +25,7 @@ static const char *const NAMES[] = {
 	"data source whose cancel handler drops the last application reference: merge, then cancel from the main thread",
 	"block object submitted with dispatch_async, dispatch_block_wait(FOREVER) racing its completion, then one more item and the last release of the queue",
 	"block object submitted with dispatch_async, a second thread polls dispatch_block_wait(NOW) then waits FOREVER, the main thread releases the queue",
+	"dispatch I/O channel on a pipe: close, cleanup handler, close again with DISPATCH_IO_STOP, last release at once",
 };
 #define NSC ((int)(sizeof(NAMES) / sizeof(NAMES[0])))
 enum { OBJ_Q = 1, OBJ_T = 2, OBJ_SRC = 3, OBJ_GRP = 4, OBJ_SEM = 5 };
@@ -220,6 +222,20 @@ static void run(int v)
 		dispatch_async_f(g_q, (void *)(intptr_t)1, item);
 		dispatch_async_f(g_q, (void *)(intptr_t)2, item_releases_queue);
 		expect = 3; break;
+	case 15: {
+		// every block the channel posts to itself must hold the channel until it has run
+		int pfd[2];
+		if (pipe(pfd)) vx_fail("pipe");
+		vx_set_io_only(1, 0);               // the channel machinery spans many threads: follow the default schedule (the
+		                                    // order that matters here, "posted block after the caller's release", is the usual one)
+		dispatch_io_t ch = dispatch_io_create(DISPATCH_IO_STREAM, pfd[0], g_t, ^(int err) { (void)err; vx_ev(EV_DTOR, 3, 0); note_done(); });
+		vx_watch_free(ch, OBJ_Q);
+		vx_focus_begin();
+		dispatch_io_close(ch, 0);
+		wait_done(1);                       // cleanup handler has run
+		dispatch_io_close(ch, DISPATCH_IO_STOP);
+		rel(ch, OBJ_Q);
+		expect = 1; break; }
 	case 13: case 14:
 		// the references a submitted block object holds on its queue are consumed exactly once, by the waiter or by the worker
 		g_q = mkq("vx.life.q", NULL, g_t, OBJ_Q); warm(g_q);
@@ -251,7 +267,7 @@ static int check(int v, const vx_log *l, char *msg, size_t len)
 {
 	int last_end = ev_last(l, EV_END, 1);
 	for (uint32_t i = 0; i < l->n; i++) if (l->ev[i].kind == EV_END && (int)i > last_end) last_end = (int)i;
-	int has_final = (v <= 5 || v >= 10), nfinal = 0, nfree_q = ev_count(l, EV_FREE, OBJ_Q);
+	int has_final = (v <= 5 || (v >= 10 && v != 15)), nfinal = 0, nfree_q = ev_count(l, EV_FREE, OBJ_Q);
 	for (uint32_t i = 0; i < l->n; i++) {
 		const vx_event *e = &l->ev[i];
 		if (e->kind == EV_FINAL) {
